@@ -1,5 +1,5 @@
 import RoaringModel.Lemmas.UnsafeLemmas
-import RoaringModel.Lemmas.MirrorLemmas
+import RoaringModel.Store
 /-!
 # C15 — no safe call sequence causes an invalid memory access (bounds logic of the unsafe sites)
 
